@@ -13,7 +13,7 @@ META = {
              "(C17_rows) with per-row tree lists as produced by the tree iterator, efc_tree of every row is in an island and every dynamic tree of the row is in that island; "
              "(C17_maps) the counts / prefix-sum / placement construction used for trees, dofs and rows yields class sizes, their prefix sums, mutually inverse permutations, island blocks in original order, unconstrained items last; "
              "(C17_floodfill) mj_floodFill terminates and labels exactly the connected components of a symmetric graph, numbered by first vertex, -1 for vertices without edges. "
-             "Tied to /repo by exact comparison of every array: exported mj_dsuMerge/mj_dsuRoot/mj_dsuAssign/mj_floodFill on raw arrays (all merge sequences over small forests with every intermediate parent array, all small graphs, random large ones) and mj_island inside mj_forward on mjSpec-built models (contacts, connect/weld/joint equalities, limits, friction loss, cross-tree tendons), where the per-row trees fed to the model are recomputed by the driver from the sparsity of efc_J. "
+             "Tied to /repo by exact comparison of every array: exported mj_dsuMerge/mj_dsuRoot/mj_dsuAssign/mj_floodFill on raw arrays (all merge sequences over small forests with every intermediate parent array, all small graphs, random large ones) and mj_island inside mj_forward on mjSpec-built models (contacts, connect/weld/joint equalities, limits, friction loss, cross-tree tendons; plus chains of adjacent single-dof trees coupled only by generic-scan rows - joint/tendon equalities, tendon limits and friction - with the dense Jacobian forced, which exercise the dense branch of treeNext), where the per-row trees fed to the model are recomputed by the driver from the sparsity of efc_J. "
              "An independent oracle (BFS components, permutation/prefix-sum checks) runs on all implementation output. "
              "Only observed/tied, not proved: that treeIterInit/treeNext return the trees of the Jacobian row (special cases for contacts, connect/weld, friction, limits) - this is what the efc_J-based oracle tests; "
              "that nidof (sum of tree_dofnum) equals the number of dofs in islands (needs tree_dofnum consistent with dof_treeid; checked by the oracle); the composition of the three C17_maps instances into island_arrays is by inspection of Model/Island.v. "
@@ -270,13 +270,18 @@ def gen_model_cases(ctx):
     for rep in range(22 if not thorough else 120):
         cases.append({"op": "P", "seed": rng.randrange(1, 10 ** 6), "nbody": rng.choice([1, 2, 3, 5, 8, 12, 20, 35, 60]),
                       "jac": int(rng.random() < 0.8), "steps": rng.choice([0, 0, 0, 2])})
+    # chains of single-dof trees coupled through generic-scan rows (joint/tendon equalities, tendon limits and
+    # friction), dense Jacobian forced in most cases: exercises the dense branch of the tree iterator
+    for rep in range(24 if not thorough else 120):
+        cases.append({"op": "C", "seed": rng.randrange(1, 10 ** 6), "nbody": rng.choice([2, 2, 3, 4, 6, 10, 20, 40]),
+                      "jac": rng.choice([0, 0, 0, 0, 2, 1]), "steps": rng.choice([0, 0, 0, 1])})
     return cases
 
 
 def model_line(c):
     if c["op"] == "G":
         return "G %d %d %d %d %d\n" % (c["seed"], c["feat"], c["nbody"], c["jac"], c["steps"])
-    return "P %d %d %d %d\n" % (c["seed"], c["nbody"], c["jac"], c["steps"])
+    return "%s %d %d %d %d\n" % (c["op"], c["seed"], c["nbody"], c["jac"], c["steps"])
 
 
 def parse_model_output(line):
@@ -463,7 +468,7 @@ def check_models(ctx, exe, cases):
                 nontriv.add((c["op"], c["seed"], c["nbody"]))
     if skipped > len(cases) // 2:
         ctx.broken.append(("correspondence", "more than half of the generated models do not compile or run", lines[0][:300]))
-    fails = ctx.coq_eval("c17isl", IMPORTS, coq_cases, "fun b : bool => b", shard=12)
+    fails = ctx.coq_eval("c17isl", IMPORTS, coq_cases, "fun b : bool => b", shard=20)
     for i in fails[:5]:
         c = cases[idx[i]]
         ctx.violation("correspondence", c, expected="model output (Model/Island.v: island_model)", observed=lines[idx[i]][:600],
@@ -488,7 +493,7 @@ def run(ctx):
     rep = ctx.replay.get("case") if ctx.replay else None
     if rep and rep.get("op") in ("D", "E", "F"):
         cases, exh, mcases = [rep], [], []
-    elif rep and rep.get("op") in ("G", "P"):
+    elif rep and rep.get("op") in ("G", "P", "C"):
         cases, exh, mcases = [], [], [rep]
     else:
         cases, exh = gen_raw_cases(ctx)
